@@ -1,0 +1,27 @@
+//go:build verif
+
+package litestream
+
+import (
+	"context"
+	"io"
+	"log/slog"
+
+	"github.com/superfly/ltx"
+
+	"github.com/benbjohnson/litestream/internal"
+)
+
+// This file exists only under the `verif` build tag. internal.ResumableReader
+// cannot be imported by an external module; these thin wrappers let the
+// verification harness construct the real reader over a scripted storage client.
+
+// VerifLTXFileOpener has the method set of internal.LTXFileOpener.
+type VerifLTXFileOpener interface {
+	OpenLTXFile(ctx context.Context, level int, minTXID, maxTXID ltx.TXID, offset, size int64) (io.ReadCloser, error)
+}
+
+// VerifNewResumableReader returns internal.NewResumableReader(...) unchanged.
+func VerifNewResumableReader(ctx context.Context, client VerifLTXFileOpener, level int, minTXID, maxTXID ltx.TXID, size int64, rc io.ReadCloser, logger *slog.Logger) io.ReadCloser {
+	return internal.NewResumableReader(ctx, client, level, minTXID, maxTXID, size, rc, logger)
+}
